@@ -227,6 +227,7 @@ func (e *Engine) loadSchemas(path string) error {
 		re, ex *regexp.Regexp
 		lines  []string
 		nos    []int
+		also   bool // `schema-also`: the clauses are ADDED to the contract a matching function already has
 	}
 	var blocks []*block
 	var cur *block
@@ -235,9 +236,9 @@ func (e *Engine) loadSchemas(path string) error {
 		if t == "" || strings.HasPrefix(t, "#") {
 			continue
 		}
-		if strings.HasPrefix(t, "schema ") {
+		if strings.HasPrefix(t, "schema ") || strings.HasPrefix(t, "schema-also ") {
 			f := strings.Fields(t)
-			cur = &block{re: regexp.MustCompile(f[1])}
+			cur = &block{re: regexp.MustCompile(f[1]), also: f[0] == "schema-also"}
 			if len(f) >= 4 && f[2] == "exclude" {
 				cur.ex = regexp.MustCompile(f[3])
 			}
@@ -261,7 +262,8 @@ func (e *Engine) loadSchemas(path string) error {
 			if !e.inRepo(fn) || fn.Blocks == nil || !bl.re.MatchString(n) || (bl.ex != nil && bl.ex.MatchString(n)) {
 				continue
 			}
-			if _, has := e.Contracts[n]; has {
+			old, has := e.Contracts[n]
+			if has && (!bl.also || old.Trusted) {
 				continue
 			}
 			lines := append([]string{"func " + n + " @" + fn.Pkg.Pkg.Path()}, bl.lines...)
@@ -273,6 +275,29 @@ func (e *Engine) loadSchemas(path string) error {
 			c := cf.Contracts[0]
 			c.Key = n
 			c.Schema = true
+			if has {
+				// schema-also: one more group of schematic clauses for a function that is already under contract (its own or
+				// an earlier schema's). Clauses are only added; nothing of the existing contract is replaced.
+				old.Requires = append(old.Requires, c.Requires...)
+				old.Ensures = append(old.Ensures, c.Ensures...)
+				old.Assumes = append(old.Assumes, c.Assumes...)
+				old.Hints = append(old.Hints, c.Hints...)
+				old.AtLine = append(old.AtLine, c.AtLine...)
+				old.AtReturn = append(old.AtReturn, c.AtReturn...)
+				old.ParamInv = append(old.ParamInv, c.ParamInv...)
+				old.Uses = append(old.Uses, c.Uses...)
+				if len(c.Modifies) > 0 {
+					old.Modifies = append(old.Modifies, c.Modifies...)
+					old.HasMod = true
+				}
+				for k, v := range c.Options {
+					if old.Options == nil {
+						old.Options = map[string]bool{}
+					}
+					old.Options[k] = v
+				}
+				continue
+			}
 			e.Contracts[n] = c
 		}
 	}
@@ -434,6 +459,48 @@ func (e *Engine) scanGlobals() {
 			}
 		}
 	}
+}
+
+// errorsNewType: if the (immutable) global g is initialised by `errors.New(...)` in its package initialiser, the dynamic
+// type of its value, *errors.errorString; nil otherwise.
+func (e *Engine) errorsNewType(g *ssa.Global) types.Type {
+	if g.Pkg == nil {
+		return nil
+	}
+	init := g.Pkg.Func("init")
+	if init == nil {
+		return nil
+	}
+	isNew := false
+	for _, b := range init.Blocks {
+		for _, in := range b.Instrs {
+			st, ok := in.(*ssa.Store)
+			if !ok || st.Addr != ssa.Value(g) {
+				continue
+			}
+			c, ok := st.Val.(*ssa.Call)
+			if !ok {
+				return nil
+			}
+			f := c.Call.StaticCallee()
+			if f == nil || f.String() != "errors.New" {
+				return nil
+			}
+			isNew = true
+		}
+	}
+	if !isNew {
+		return nil
+	}
+	ep := e.Pkgs["errors"]
+	if ep == nil || ep.Types == nil {
+		return nil
+	}
+	o := ep.Types.Scope().Lookup("errorString")
+	if o == nil {
+		return nil
+	}
+	return types.NewPointer(o.Type())
 }
 
 func (e *Engine) immutableGlobal(g *ssa.Global) bool {
